@@ -38,6 +38,9 @@ struct K8s {
     log: Vec<(u64, String)>,
     lists: u64,
     watches: u64,
+    /// when a paginated LIST asks for its next page: delete these objects (nobody is told) and answer 410 once
+    interrupt_continue: Option<Vec<String>>,
+    interrupted: u64,
 }
 
 impl K8s {
@@ -140,12 +143,35 @@ async fn serve(state: Arc<Mutex<K8s>>) -> SocketAddr {
                         // the connection stays usable for the next request
                         continue;
                     }
-                    let body = {
+                    let param = |name: &str| target.split(['?', '&']).find_map(|kv| kv.strip_prefix(name).and_then(|r| r.strip_prefix('='))).map(String::from);
+                    let limit: Option<usize> = param("limit").and_then(|v| v.parse().ok());
+                    let cont: Option<String> = param("continue").filter(|c| !c.is_empty());
+                    let (status, body) = {
                         let mut st = state.lock().unwrap();
                         st.lists += 1;
-                        json!({"apiVersion": "agones.dev/v1", "kind": "GameServerList", "metadata": {"resourceVersion": st.rv.to_string()}, "items": st.objects.values().cloned().collect::<Vec<_>>()}).to_string()
+                        if cont.is_some() && st.interrupt_continue.is_some() {
+                            // the continue token has "expired": meanwhile some objects disappeared
+                            for n in st.interrupt_continue.take().unwrap() {
+                                st.objects.remove(&n);
+                                st.rv += 1;
+                            }
+                            st.interrupted += 1;
+                            ("410 Gone", json!({"kind": "Status", "apiVersion": "v1", "metadata": {}, "status": "Failure", "message": "The provided continue parameter is too old", "reason": "Expired", "code": 410}).to_string())
+                        } else {
+                            let names: Vec<String> = st.objects.keys().filter(|n| cont.as_ref().is_none_or(|c| n.as_str() > c.as_str())).cloned().collect();
+                            let page: Vec<String> = match limit {
+                                Some(l) => names.iter().take(l).cloned().collect(),
+                                None => names.clone(),
+                            };
+                            let more = page.len() < names.len();
+                            let mut meta = json!({"resourceVersion": st.rv.to_string()});
+                            if more {
+                                meta["continue"] = json!(page.last().cloned().unwrap_or_default());
+                            }
+                            ("200 OK", json!({"apiVersion": "agones.dev/v1", "kind": "GameServerList", "metadata": meta, "items": page.iter().map(|n| st.objects[n].clone()).collect::<Vec<_>>()}).to_string())
+                        }
                     };
-                    let resp = format!("HTTP/1.1 200 OK\r\ncontent-type: application/json\r\ncontent-length: {}\r\n\r\n{body}", body.len());
+                    let resp = format!("HTTP/1.1 {status}\r\ncontent-type: application/json\r\ncontent-length: {}\r\n\r\n{body}", body.len());
                     if sock.write_all(resp.as_bytes()).await.is_err() {
                         return;
                     }
@@ -224,6 +250,9 @@ pub enum Ev {
     GoneAndDelete { name: String },
     /// 410 Gone, and while the watch is down the object changes
     GoneAndApply { name: String, shape: String },
+    /// 410 Gone; the paginated re-list is cut off after its first page (expired continue token) and the
+    /// named objects disappear before the list is retried
+    GoneRelistInterrupted { delete: Vec<String> },
 }
 
 #[derive(Clone, Debug, Serialize, Deserialize, PartialEq)]
@@ -231,6 +260,9 @@ pub struct Spec {
     /// initial LIST content: (name, shape)
     initial: Vec<(String, String)>,
     history: Vec<Ev>,
+    /// the adapter lists in pages of two objects
+    #[serde(default)]
+    paged: bool,
 }
 
 static KUBECONFIG_LOCK: Mutex<()> = Mutex::new(());
@@ -268,7 +300,8 @@ fn run_history(spec: &Spec, counters: &(AtomicU64, AtomicU64)) -> Vec<(String, S
             let cfg = format!("apiVersion: v1\nkind: Config\nclusters:\n- name: mock\n  cluster:\n    server: http://{addr}\ncontexts:\n- name: mock\n  context:\n    cluster: mock\n    user: mock\n    namespace: default\ncurrent-context: mock\nusers:\n- name: mock\n  user: {{}}\n");
             std::fs::write(&path, cfg).expect("kubeconfig");
             unsafe { std::env::set_var("KUBECONFIG", &path) };
-            let a = AgonesDiscoveryAdapter::new(None, WatchConfig::default()).await;
+            let wc = if spec.paged { WatchConfig::default().page_size(2) } else { WatchConfig::default() };
+            let a = AgonesDiscoveryAdapter::new(None, wc).await;
             let _ = std::fs::remove_file(&path);
             match a {
                 Ok(a) => a,
@@ -345,9 +378,13 @@ fn run_history(spec: &Spec, counters: &(AtomicU64, AtomicU64)) -> Vec<(String, S
                         st.gone();
                         st.apply(name, game_server(name, shape));
                     }
+                    Ev::GoneRelistInterrupted { delete } => {
+                        st.interrupt_continue = Some(delete.clone());
+                        st.gone();
+                    }
                 }
             }
-            if matches!(ev, Ev::CloseWatch | Ev::Gone | Ev::GoneAndDelete { .. } | Ev::GoneAndApply { .. }) {
+            if matches!(ev, Ev::CloseWatch | Ev::Gone | Ev::GoneAndDelete { .. } | Ev::GoneAndApply { .. } | Ev::GoneRelistInterrupted { .. }) {
                 // wait until the adapter has opened a new watch before the marker is toggled
                 let before = state.lock().unwrap().watches;
                 let t0 = Instant::now();
@@ -422,7 +459,7 @@ fn histories(initial: &[(String, String)], depth: usize, allow_gone_depth: usize
             if !enabled(&present, ev) {
                 continue;
             }
-            let is_gone = |e: &Ev| matches!(e, Ev::Gone | Ev::GoneAndDelete { .. } | Ev::GoneAndApply { .. });
+            let is_gone = |e: &Ev| matches!(e, Ev::Gone | Ev::GoneAndDelete { .. } | Ev::GoneAndApply { .. } | Ev::GoneRelistInterrupted { .. });
             if is_gone(ev) && (cur.iter().any(is_gone) || depth > gone_ok) {
                 continue;
             }
@@ -472,13 +509,13 @@ pub fn run(cli: Cli) -> ! {
     for init in &initials {
         let (depth, gone_depth) = if thorough { (3, 3) } else { (2, 0) };
         for h in histories(init, depth, gone_depth) {
-            specs.push(Spec { initial: init.clone(), history: h });
+            specs.push(Spec { initial: init.clone(), history: h, paged: false });
         }
     }
     if thorough {
         // depth 4 from the richest initial state, without 410 (each costs the watcher's error backoff)
         for h in histories(&initials[2], 4, 0) {
-            specs.push(Spec { initial: initials[2].clone(), history: h });
+            specs.push(Spec { initial: initials[2].clone(), history: h, paged: false });
         }
     } else {
         // quick: selected depth-3 histories around deletion, re-list and unconvertible updates
@@ -497,7 +534,20 @@ pub fn run(cli: Cli) -> ! {
             vec![a("allocated"), a("shutdown"), a("ready-moved")],
             vec![b("ready"), Ev::Bookmark, Ev::CloseWatch],
         ] {
-            specs.push(Spec { initial: initials[1].clone(), history: h });
+            specs.push(Spec { initial: initials[1].clone(), history: h, paged: false });
+        }
+    }
+    // paginated lists: every depth-1/2 history again with pages of two objects, and re-lists that are cut
+    // off after their first page while objects of that page disappear
+    let five: Vec<(String, String)> = ["a", "b", "c", "d", "e"].iter().map(|n| (n.to_string(), "ready".to_string())).collect();
+    for del in [vec!["a"], vec!["a", "b"], vec!["b"], vec!["c"], vec!["a", "e"]] {
+        let delete: Vec<String> = del.iter().map(|s| s.to_string()).collect();
+        specs.push(Spec { initial: five.clone(), history: vec![Ev::GoneRelistInterrupted { delete: delete.clone() }], paged: true });
+        specs.push(Spec { initial: five.clone(), history: vec![Ev::Apply { name: "c".into(), shape: "shutdown".into() }, Ev::GoneRelistInterrupted { delete: delete.clone() }, Ev::Delete { name: "d".into() }], paged: true });
+    }
+    for init in &initials {
+        for h in histories(init, if thorough { 2 } else { 1 }, if thorough { 2 } else { 1 }) {
+            specs.push(Spec { initial: init.clone(), history: h, paged: true });
         }
     }
     let rot = common::seed() as usize % specs.len();
@@ -519,9 +569,9 @@ pub fn run(cli: Cli) -> ! {
     rep.set("histories", json!(specs.len()));
     rep.set("list_requests_served", json!(counters.1.load(Ordering::Relaxed)));
     rep.set("exhaustive", json!(true));
-    rep.set("rule", json!("all maximal histories up to the depth over 20 events (ADDED/MODIFIED of two game servers in 6 shapes, DELETED, BOOKMARK, watch closed cleanly, 410 Gone followed by a re-list, 410 Gone with an object deleted / changed while the watch is down), pruned to events enabled in the mock's current truth, from 3 initial LIST contents; after every event a marker object is toggled and awaited (barrier) and the snapshot compared with the reference map. quick: depth 2 without 410 plus 10 selected histories with deletions, re-lists and changes during a watch outage; thorough: depth 3 with one 410, depth 4 without."));
+    rep.set("rule", json!("all maximal histories up to the depth over 20 events (ADDED/MODIFIED of two game servers in 6 shapes, DELETED, BOOKMARK, watch closed cleanly, 410 Gone followed by a re-list, 410 Gone with an object deleted / changed while the watch is down, 410 Gone whose paginated re-list is cut off after the first page while listed objects disappear), pruned to events enabled in the mock's current truth, from 3 initial LIST contents; after every event a marker object is toggled and awaited (barrier) and the snapshot compared with the reference map. quick: depth 2 without 410 plus 10 selected histories with deletions, re-lists and changes during a watch outage; thorough: depth 3 with one 410, depth 4 without."));
     rep.sample(json!({"spec": specs[0]}));
-    rep.sample(json!({"spec": Spec { initial: vec![("a".into(), "ready".into())], history: vec![Ev::Delete { name: "a".into() }] }, "expect": "'a' is no longer offered"}));
+    rep.sample(json!({"spec": Spec { initial: vec![("a".into(), "ready".into())], history: vec![Ev::Delete { name: "a".into() }], paged: false }, "expect": "'a' is no longer offered"}));
     rep.assume("the Kubernetes API is a hand-written HTTP/1.1 mock (LIST + chunked WATCH); the kube client, watcher and backoff run unmodified; OS timing only enters through 5-8 s deadlines on barriers");
     rep.assume("events are applied in stream order, so the visibility of the toggled marker implies that every earlier event has been applied");
     rep.finish()
